@@ -244,6 +244,51 @@ def _c_unit_of_last():
     _emit(rec)
 
 
+def _reparse_last():
+    """C17 on the repository's tests: the final Procedure of a test is printed (with the injectivity monitor on the real
+    PrintEnv), parsed again by the real front end, printed again, and packaged as an equivalence unit."""
+    last = _STATE.get("last_proc_rp")
+    budget = _STATE.get("rp_budget", 0)
+    if last is None or budget <= 0:
+        return
+    _STATE["last_proc_rp"] = None
+    from .reparse import reparse, well_scoped
+    from .replay_printenv import InjectivityMonitor
+    from .export import make_unit, ExportError
+    from .inputs import gen_inputs
+    rec = {"kind": "reparse", "prog": "repo:" + _STATE["test"], "how": "final procedure of the test"}
+    try:
+        if not well_scoped(last._loopir_proc):
+            rec["status"] = "source-ill-scoped"
+            _emit(rec)
+            return
+        with InjectivityMonitor() as mon:
+            text = str(last)
+        rec["text"] = text[:6000]
+        rec["name_clashes"] = mon.violations[:4]
+        st, r = reparse(last)
+        rec["status"] = st
+        if st != "ok":
+            rec["msg"] = r
+        else:
+            rec["text2"] = str(r)[:6000]
+            rec["same_text"] = (str(r) == text)
+            try:
+                unit, ex = make_unit(rec["prog"] + "|reparse", last._loopir_proc, r._loopir_proc, mode="F")
+                rng = random.Random(f"rp/{_STATE['test']}")
+                unit["inputs"] = [{"a": s_} for s_ in gen_inputs(last._loopir_proc, ex.cfgtypes(), "F", rng,
+                                                                 cap=int(os.environ.get("TESTREC_CAP", "3")), max_cells=600)]
+                if unit["inputs"]:
+                    rec["unit"] = unit
+            except ExportError as e:
+                rec["export_error"] = str(e)[:100]
+        _STATE["rp_budget"] = budget - 1
+    except Exception as e:
+        rec["status"] = "recorder-error"
+        rec["msg"] = f"{type(e).__name__}: {str(e)[:200]}"
+    _emit(rec)
+
+
 def _install():
     import exo.API as API
     orig_init = API.Procedure.__init__
@@ -260,6 +305,7 @@ def _install():
                 _session_event(_opname(), True)
             if _STATE["test"] != "?" and _provenance_eq_Procedure is not None:
                 _STATE["last_proc"] = self
+                _STATE["last_proc_rp"] = self
             if os.environ.get("TESTREC_TEXTS", "0") == "1":
                 try:
                     dg = hashlib.sha1(str(self).encode()).hexdigest()[:12]
@@ -368,6 +414,13 @@ if _OUT:
     def pytest_runtest_teardown(item, nextitem):
         if _STATE.get("texts"):
             _emit({"kind": "texts", "test": item.nodeid, "digests": _STATE.pop("texts")})
+        if int(os.environ.get("TESTREC_REPARSE", "0")) > 0:
+            _STATE.setdefault("rp_budget", int(os.environ["TESTREC_REPARSE"]))
+            _STATE["busy"] = True
+            try:
+                _reparse_last()
+            finally:
+                _STATE["busy"] = False
         if int(os.environ.get("TESTREC_C", "0")) > 0:
             _STATE.setdefault("c_budget", int(os.environ["TESTREC_C"]))
             _STATE["busy"] = True
@@ -408,7 +461,7 @@ THOROUGH_FILES = QUICK_FILES + ["tests/test_halide_ops.py", "tests/test_range_an
 
 
 def run_tests(files, workdir, repo=None, cap=6, timeout=1500, fwd=True, units=True, purity=True, max_cells=600,
-              edits=False, claims=False, trace_ops="", texts=False, extra_env=None, c_units=0, heap=False):
+              edits=False, claims=False, trace_ops="", texts=False, extra_env=None, c_units=0, heap=False, reparse=0):
     """Run each test file (optionally split into shards by -k-less item slicing) under the recorder.
     -> (records, per-file info)."""
     from .common import NCPU, REPO, MachineryError
@@ -425,7 +478,7 @@ def run_tests(files, workdir, repo=None, cap=6, timeout=1500, fwd=True, units=Tr
                     "TESTREC_UNITS": "1" if units else "0", "TESTREC_PURITY": "1" if purity else "0",
                     "TESTREC_MAX_CELLS": str(max_cells), "TESTREC_EDITS": "1" if edits else "0",
                     "TESTREC_CLAIMS": "1" if claims else "0", "TESTREC_TRACE_OPS": trace_ops,
-                    "TESTREC_TEXTS": "1" if texts else "0", "TESTREC_C": str(c_units), "TESTREC_HEAP": "1" if heap else "0"})
+                    "TESTREC_TEXTS": "1" if texts else "0", "TESTREC_C": str(c_units), "TESTREC_HEAP": "1" if heap else "0", "TESTREC_REPARSE": str(reparse)})
         env.update(extra_env or {})
         env.pop("PYTEST_ADDOPTS", None)
         cmd = [sys.executable, "-m", "pytest", "-q", "-x" if False else "-q", "-p", "no:cacheprovider",
@@ -466,11 +519,11 @@ def run_tests(files, workdir, repo=None, cap=6, timeout=1500, fwd=True, units=Tr
 
 
 def test_edges(files, workdir, cap=4, max_cells=600, fwd=False, purity=False, units=True, timeout=1500, edits=False,
-               claims=False, trace_ops="", c_units=0, heap=False):
+               claims=False, trace_ops="", c_units=0, heap=False, reparse=0):
     """Recorded derivation edges of the repository's tests in the record format of edgecheck.decide_edges
     (prog = test id, args = ordinal of the step in its test file, facts = {}).  -> (edges, info, other records)"""
     recs, info = run_tests(files, workdir, cap=cap, fwd=fwd, units=units, purity=purity, max_cells=max_cells,
-                           timeout=timeout, edits=edits, claims=claims, trace_ops=trace_ops, c_units=c_units, heap=heap)
+                           timeout=timeout, edits=edits, claims=claims, trace_ops=trace_ops, c_units=c_units, heap=heap, reparse=reparse)
     edges, other = [], []
     seen = set()
     for r in recs:
